@@ -227,9 +227,8 @@ def run_case(ctx, case):
             dat.grid = g
             dat.write(fn)
             g = t2d.t2data(fn).grid
-            for b in g.blocklist:
-                if b.volume >= 1e25 or b.volume <= 0:
-                    b.atmosphere = True
+            # (the grid is handed on exactly as the reader built it: a data file does not record which blocks are
+            #  atmosphere blocks, and rectgeo() has to manage with the volumes - the harness must not help it)
         if gd.raised is not None:
             return
         ctx.count('file_roundtrips')
@@ -281,7 +280,56 @@ def run_case(ctx, case):
     compare_grids(ctx, g, g2, case, rel, mech)
 
 
+def run_inactive_case(ctx, case):
+    """The ground surface given the TOUGH2 way: the grid of the FLAT geometry, with the blocks above the surface moved to
+    the end of the block list behind a block of zero volume (everything from the first non-positive volume on is inactive).
+    rectgeo(remove_inactive=True) must give the geometry with those surfaces."""
+    mg, t2g = R.mulgrids, R.t2grids
+    conv = case['convention']
+    flat = mg.mulgrid().rectangular(case['dx'], case['dy'], case['dz'], convention=conv, atmos_type=2, origin=case['origin'])
+    want = mg.mulgrid().rectangular(case['dx'], case['dy'], case['dz'], convention=conv, atmos_type=2, origin=case['origin'])
+    g = t2g.t2grid().fromgeo(flat)
+    inactive = []
+    for col, wcol, k in zip(flat.columnlist, want.columnlist, case['removed']):
+        for lay in flat.layerlist[1:1 + k]:
+            inactive.append(flat.block_name(lay.name, col.name))
+        wcol.surface = want.layerlist[1 + k].top if k else want.layerlist[0].bottom
+        want.set_column_num_layers(wcol)
+    want.setup_block_name_index()
+    want.setup_block_connection_name_index()
+    if not inactive:
+        return
+    active = [b.name for b in g.blocklist if b.name not in set(inactive)]
+    g.reorder(block_names=active + inactive)
+    g.block[inactive[0]].volume = case['marker_volume']
+    ctx.see('inactive_marker_volume', repr(case['marker_volume']))
+    with ctx.guard(case, where='rectgeo:remove_inactive') as gd:
+        G2, bm = g.rectgeo(remove_inactive=True, convention=conv, atmos_type=2)
+    if gd.raised is not None:
+        return
+    ctx.evaluated()
+    ctx.count('reconstructions_with_inactive_blocks')
+    extent = max(sum(case['dx']), sum(case['dy']), sum(case['dz']))
+    tol = 1e-7 * max(extent, 1.0)
+    if not compare_geometries(ctx, want, G2, case, tol, tol, 'inactive-blocks'):
+        return
+    if len(G2.block_name_list) != len(active):
+        ctx.violation('inactive-blocks:block-count', 'the reconstructed geometry has %d blocks, the grid %d active ones' % (len(G2.block_name_list), len(active)), case)
+
+
+def gen_inactive_case(rng, k):
+    nx, ny, nz = rng.randint(2, 4), rng.randint(2, 4), rng.randint(3, 6)
+    dz = sorted([round(rng.uniform(4.0, 40.0), 1) for _ in range(nz)]) if k % 2 else [round(rng.uniform(4.0, 40.0), 1) for _ in range(nz)]
+    return {'kind': 'inactive', 'dx': [round(rng.uniform(20, 200), 1) for _ in range(nx)], 'dy': [round(rng.uniform(20, 200), 1) for _ in range(ny)], 'dz': dz,
+            'convention': rng.randint(0, 2), 'origin': [round(rng.uniform(-500, 500), 1), round(rng.uniform(-500, 500), 1), round(rng.uniform(0, 300), 1)],
+            'removed': [rng.randint(0, nz - 2) for _ in range(nx * ny)], 'marker_volume': rng.choice([0.0, -1.0, 0.0])}
+
+
 def run_shard(ctx, spec):
+    for i in range(max(6, spec['n'] // 10)):
+        c = gen_inactive_case(ctx.rng, i)
+        run_inactive_case(ctx, c)
+        ctx.case(repr(c), nontrivial=len(set(c['removed'])) >= 2)
     for i in range(spec['n']):
         case = gen_case(ctx.rng, ctx.shard * 1000 + i)
         geo, ncut = build_geo(case)
@@ -291,4 +339,7 @@ def run_shard(ctx, spec):
 
 
 def replay(ctx, case):
-    run_case(ctx, case)
+    if case.get('kind') == 'inactive':
+        run_inactive_case(ctx, case)
+    else:
+        run_case(ctx, case)
